@@ -40,6 +40,11 @@ CASES = [
     ("double-index-call", "f ( <0> ) [ <1> ] [ <2> ] ;", "INDEX_EXPR", [("shape", ["INDEX_EXPR", "INDEX_EXPR", "CALL_EXPR"], None)]),
     ("double-index-paren", "( <0> ) [ <1> ] [ <2> ] ;", "INDEX_EXPR", [("shape", ["INDEX_EXPR", "INDEX_EXPR", "PAREN_EXPR"], None)]),
     ("double-index-cast", "int ( <0> ) [ <1> ] [ <2> ] ;", "INDEX_EXPR", [("shape", ["INDEX_EXPR", "INDEX_EXPR", "CAST_EXPRESSION"], None)]),
+    # postfix binds tighter than a unary operator: the operand of `-` / `!` is the whole indexed / called expression
+    ("unary-index", "- x [ <0> ] ;", "EXPR_STMT", [("shape", ["EXPR_STMT", "PREFIX_EXPR"], None)]),
+    ("unary-call", "- f ( <0> ) ;", "EXPR_STMT", [("shape", ["EXPR_STMT", "PREFIX_EXPR", "CALL_EXPR"], None)]),
+    ("not-call", "! f ( <0> ) ;", "EXPR_STMT", [("shape", ["EXPR_STMT", "PREFIX_EXPR", "CALL_EXPR"], None)]),
+    ("unary-index-in-binary", "- x [ <0> ] * y ;", "EXPR_STMT", [("shape", ["EXPR_STMT", "BIN_EXPR", "PREFIX_EXPR"], None)]),
     ("call-of-index", "f ( <0> ) [ <1> ] ;", "INDEX_EXPR", [("shape", ["INDEX_EXPR", "CALL_EXPR"], None)]),
     ("gate-def", "gate g ( s , t ) u , v , w { }", "GATE", [("Gate", "angle_params", ("within", "s", "t", "u")), ("Gate", "qubit_params", ("within", "u", "w", "t"))]),
     ("gate-def-noparams", "gate g u , v { }", "GATE", [("Gate", "angle_params", None), ("Gate", "qubit_params", ("within", "u", "v", "g"))]),
